@@ -28,6 +28,16 @@ pub struct Proto {
     /// the output order: blinded outputs first / fee first
     pub fee_first: bool,
     pub rng_stream: u64,
+    /// 0 = none; 1 = explicit new issuance (amount) on input 0, issued asset sent to one blinded output of that input's owner
+    /// (+ an explicit remainder); 2 = same with reissuance tokens (explicit token output); 3 = tokens sent to a blinded output
+    #[serde(default)]
+    pub issuance: u8,
+    /// value magnitude class of the blinded outputs: 0 = hundreds, 1 = around 2^32, 2 = around 2^52
+    #[serde(default)]
+    pub magnitude: u8,
+    /// inputs (bit mask) that additionally carry the full previous transaction (non_witness_utxo) next to witness_utxo
+    #[serde(default)]
+    pub nonwit_mask: u8,
 }
 
 pub struct Built {
@@ -39,8 +49,21 @@ pub struct Built {
     pub out_asset_value: Vec<(AssetId, u64)>,
 }
 
+/// asset menu: 0 = A, 1 = B, 2 = the asset issued by input 0, 3 = its reissuance token (unblinded issuance)
+fn aid_with(a: u8, first_outpoint: OutPoint) -> AssetId {
+    match a {
+        0 => asset_a(),
+        1 => asset_b(),
+        _ => {
+            let entropy = AssetId::generate_asset_entropy(first_outpoint, elements::ContractHash::from_byte_array(gen::pat32(6)));
+            if a == 2 { AssetId::from_entropy(entropy) } else { AssetId::reissuance_token_from_entropy(entropy, false) }
+        }
+    }
+}
+
 fn aid(a: u8) -> AssetId {
-    if a == 0 { asset_a() } else { asset_b() }
+    assert!(a < 2);
+    aid_with(a, OutPoint::default())
 }
 
 pub fn build(p: &Proto) -> Built {
@@ -59,7 +82,8 @@ pub fn build(p: &Proto) -> Built {
         for j in 0..p.outs_per_party[party] {
             // asset of one of the party's inputs, blinder index one of its inputs
             let inp = own[j % own.len()];
-            outs.push(O { asset: p.inputs[inp].0, value: 100 + (party * 10 + j) as u64, party: Some(party), blinder_index: own[(j + 1) % own.len()] as u32 });
+            let base = [0u64, 1 << 32, (1 << 52) - 1000][p.magnitude as usize % 3];
+            outs.push(O { asset: p.inputs[inp].0, value: base + 100 + (party * 10 + j) as u64, party: Some(party), blinder_index: own[(j + 1) % own.len()] as u32 });
         }
     }
     // every input asset needs an output; explicit outputs for uncovered assets, plus the optional extra one
@@ -71,12 +95,27 @@ pub fn build(p: &Proto) -> Built {
     if p.extra_explicit {
         outs.push(O { asset: 0, value: 7, party: None, blinder_index: 0 });
     }
+    // issuance pseudo-input on input 0: the issued asset (and token) leave through outputs of input 0's owner
+    let (issue_amount, issue_tokens) = match p.issuance {
+        0 => (0u64, 0u64),
+        1 => (55, 0),
+        _ => (55, 2),
+    };
+    if p.issuance > 0 {
+        let owner = p.inputs[0].2;
+        outs.push(O { asset: 2, value: 40, party: Some(owner), blinder_index: 0 });
+        outs.push(O { asset: 2, value: 15, party: None, blinder_index: 0 });
+        if issue_tokens > 0 {
+            outs.push(O { asset: 3, value: issue_tokens, party: if p.issuance == 3 { Some(owner) } else { None }, blinder_index: 0 });
+        }
+    }
     let fee = 3u64;
-    let mut need = [0u64; 2];
+    let mut need = [0u64; 4];
     for o in &outs {
         need[o.asset as usize] += o.value;
     }
     need[0] += fee;
+    debug_assert!(p.issuance == 0 || (need[2] == issue_amount && need[3] == issue_tokens));
     // inputs
     let mut utxos = Vec::new();
     let mut secrets = Vec::new();
@@ -98,11 +137,29 @@ pub fn build(p: &Proto) -> Built {
             witness: TxOutWitness::default(),
         };
         let mut inp = Input::from_prevout(OutPoint::new(Txid::from_byte_array(gen::pat32(4 + i)), i as u32));
+        if (p.nonwit_mask >> i) & 1 == 1 {
+            // the full previous transaction as well (its output i is the spent one, its txid the spent txid)
+            let mut outs_prev = vec![TxOut::new_fee(1, asset_a()); i];
+            outs_prev.push(utxo.clone());
+            let prev = elements::Transaction { version: 2, lock_time: elements::LockTime::ZERO, input: vec![], output: outs_prev };
+            inp = Input::from_prevout(OutPoint::new(prev.txid(), i as u32));
+            inp.non_witness_utxo = Some(prev);
+        }
         inp.witness_utxo = Some(utxo.clone());
+        if i == 0 && p.issuance > 0 {
+            inp.issuance_value_amount = Some(issue_amount);
+            if issue_tokens > 0 {
+                inp.issuance_inflation_keys = Some(issue_tokens);
+            }
+            inp.issuance_asset_entropy = Some(gen::pat32(6));
+            inp.blinded_issuance = Some(0); // the PSET blinders refuse inputs whose issuance is to be blinded
+        }
         pset.add_input(inp);
         utxos.push(utxo);
         secrets.push(TxOutSecrets::new(asset, abf, value, vbf));
     }
+    let first_outpoint = OutPoint::new(pset.inputs()[0].previous_txid, pset.inputs()[0].previous_output_index);
+    let aid = |a: u8| aid_with(a, first_outpoint);
     let mut marked = Vec::new();
     let mut out_asset_value = Vec::new();
     let mut push_out = |pset: &mut Pset, o: Output, m: Option<(usize, zkp::SecretKey)>, av: (AssetId, u64)| {
@@ -262,13 +319,31 @@ pub fn protocols(thorough: bool, streams: u64) -> Vec<Proto> {
                                     continue;
                                 }
                                 for st in 0..streams {
-                                    out.push(Proto {
+                                    let base = Proto {
                                         inputs: (0..n).map(|i| (if i == 0 { 0 } else { ((amask >> (i - 1)) & 1) as u8 }, (cmask >> i) & 1 == 1, owners[i])).collect(),
                                         outs_per_party: opp.iter().map(|x| x + 1).collect(),
                                         extra_explicit: extra,
                                         fee_first: (cmask + amask) % 2 == 0,
                                         rng_stream: st,
-                                    });
+                                        issuance: 0,
+                                        magnitude: 0,
+                                        nonwit_mask: 0,
+                                    };
+                                    let idx = out.len();
+                                    out.push(base.clone());
+                                    // issuance pseudo-inputs, larger magnitudes, inputs that also carry the full previous transaction:
+                                    // quick = one covering variant per scenario; thorough = every issuance mode and every magnitude
+                                    let nw = |j: usize| ((idx + j) % (1usize << n)) as u8;
+                                    if thorough {
+                                        for iss in 1..=3u8 {
+                                            out.push(Proto { issuance: iss, magnitude: ((idx + iss as usize) % 3) as u8, nonwit_mask: nw(iss as usize), ..base.clone() });
+                                        }
+                                        for mag in 1..=2u8 {
+                                            out.push(Proto { issuance: 0, magnitude: mag, nonwit_mask: nw(3 + mag as usize), ..base.clone() });
+                                        }
+                                    } else if st == 0 {
+                                        out.push(Proto { issuance: (idx % 4) as u8, magnitude: ((idx / 4) % 3) as u8, nonwit_mask: nw(1).max(1), ..base.clone() });
+                                    }
                                 }
                             }
                         });
@@ -285,7 +360,9 @@ pub fn run(r: &Report) {
     r.set_rule(
         "protocol scenarios: 1..3 inputs x asset assignment {A,B} (first input A) x explicit/confidential spent outputs x every set partition of \
          the inputs among 1..3 parties x 1..3 blinded outputs per party (asset and blinder index from the party's own inputs) x optional extra \
-         explicit output x fee first/last x rng stream menu; for each scenario EVERY permutation of the parties (last element runs blind_last, \
+         explicit output x fee first/last x rng stream menu x {no issuance, explicit new issuance on input 0 whose asset leaves through a blinded \
+         output of that input's owner, with explicit / blinded reissuance-token output} x value magnitude {hundreds, 2^32, 2^52} x inputs that \
+         also carry the full previous transaction (quick: one covering variant per scenario; thorough: every issuance mode and magnitude); for each scenario EVERY permutation of the parties (last element runs blind_last, \
          the others blind_non_last in that order), with a serialize/deserialize hop in every transition; invariants in every intermediate \
          state (scalar count, earlier outputs untouched, own outputs fully blinded) and in the terminal state (scalars empty, extracted tx \
          verifies against the UTXOs, every marked output unblinds to the original asset/value, stored explicit-value/asset proofs verify). \
@@ -317,7 +394,7 @@ pub fn run(r: &Report) {
     });
     r.not_exhaustive();
     r.assume("RNG output is a sampled dimension (fixed menu of deterministic streams per party); everything else is enumerated completely within the stated bounds");
-    r.assume("every party owns at least one input and at least one blinded output (the property's quantifier); issuances are not part of the PSET blinding API");
+    r.assume("every party owns at least one input and at least one blinded output (the property's quantifier); issuance amounts stay explicit (blinding issuances is not part of the PSET blinding API), but issuance pseudo-inputs are part of the surjection domain");
     let _ = hex;
 }
 
